@@ -5,18 +5,37 @@ package object
 // C05: Go-map iteration in package object is order independent (commutativity obligation per loop), or feeds
 // a slice that is sorted by a total order before it is used.
 
+// Set algebra against the map model (C16): the result is a fresh set whose key set is exactly the union /
+// intersection / difference, each key carrying the element it had in its source set.
 //@ func (*Set).Union
-//@ props C05
+//@ props C05 C16
 //@ commute 1
 //@ commute 2
+//@ requires s != nil && other != nil
+//@ modifies nothing
+//@ invariant 1: union != nil && !allocated(union) && union.items != nil && !allocated(union.items) && forallA(k, HashKey, haskey(union.items, k) == seen(k) && (seen(k) ==> haskey(s.items, k) && union.items[k] == s.items[k]))
+//@ invariant 2: union != nil && !allocated(union) && union.items != nil && !allocated(union.items) && forallA(k, HashKey, haskey(union.items, k) == (haskey(s.items, k) || seen(k)) && (seen(k) ==> haskey(other.items, k) && union.items[k] == other.items[k]) && (!seen(k) && haskey(s.items, k) ==> union.items[k] == s.items[k]))
+//@ ensures[C16.set.union] result != nil && fresh(result) && forallA(k, HashKey, haskey(result.items, k) == (haskey(s.items, k) || haskey(other.items, k)) && (haskey(other.items, k) ==> result.items[k] == other.items[k]) && (!haskey(other.items, k) && haskey(s.items, k) ==> result.items[k] == s.items[k]))
 
 //@ func (*Set).Intersection
-//@ props C05
+//@ props C05 C16
 //@ commute 1
+//@ requires s != nil && other != nil
+//@ modifies nothing
+//@ invariant 1: intersection != nil && !allocated(intersection) && intersection.items != nil && !allocated(intersection.items) && forallA(k, HashKey, haskey(intersection.items, k) == (seen(k) && haskey(other.items, k)) && (haskey(intersection.items, k) ==> haskey(s.items, k) && intersection.items[k] == s.items[k]))
+//@ ensures[C16.set.intersection] result != nil && fresh(result) && forallA(k, HashKey, haskey(result.items, k) == (haskey(s.items, k) && haskey(other.items, k)) && (haskey(result.items, k) ==> result.items[k] == s.items[k]))
 
 //@ func (*Set).Difference
-//@ props C05
+//@ props C05 C16
 //@ commute 1
+//@ requires s != nil && other != nil
+//@ assume[heap.closed] allocated(other.items) && allocated(s.items)
+//@ modifies nothing
+//@ invariant 1: difference != nil && !allocated(difference) && difference.items != nil && !allocated(difference.items)
+//@ invariant 1: allocated(other.items) && allocated(s.items)
+//@ invariant 1: forallA(k, HashKey, haskey(difference.items, k) ==> seen(k) && !haskey(other.items, k) && haskey(s.items, k) && difference.items[k] == s.items[k])
+//@ invariant 1: forallA(k, HashKey, seen(k) && !haskey(other.items, k) ==> haskey(difference.items, k))
+//@ ensures[C16.set.difference] result != nil && fresh(result) && forallA(k, HashKey, haskey(result.items, k) == (haskey(s.items, k) && !haskey(other.items, k)) && (haskey(result.items, k) ==> result.items[k] == s.items[k]))
 
 //@ func NewBuiltinsModule
 //@ props C05 C11
@@ -48,7 +67,7 @@ package object
 
 // Dispositions of every Go-map range loop in this package (a new loop must be added here with a reason):
 //   commute-proved: Map.Copy#1 Map.Update#1 Set.Union#1 Set.Union#2 Set.Intersection#1 Set.Difference#1 NewBuiltinsModule#1 NewBuiltinsModule#2
-//   sorted-after (functional postcondition): Map.SortedKeys#1; sorted by the caller, not yet under contract: Set.SortedItems#1 Keys#1 Map.StringKeys#1
+//   sorted-after (functional postcondition): Map.SortedKeys#1 Set.SortedItems#1 (sortby); sorted by the caller, not under contract: Keys#1 Map.StringKeys#1
 //   early exit with an order-independent boolean result, not yet under contract: Map.Equals#1 Set.Equals#1
 //   calls into code without contracts (undecided): Map.Interface#1 AsObjects#1 FromGoType#1 MapConverter.To#1 StructConverter.To#1 GoType.attrMap#1 newGoType#1..#3
 //@ scan[C05.maploops.object] C05 maprange object: (*Map).Copy#1 (*Map).Update#1 (*Set).Union#1 (*Set).Union#2 (*Set).Intersection#1 (*Set).Difference#1 NewBuiltinsModule#1 NewBuiltinsModule#2 (*Map).SortedKeys#1 (*Set).SortedItems#1 Keys#1 (*Map).StringKeys#1 (*Map).Equals#1 (*Set).Equals#1 (*Map).Interface#1 AsObjects#1 FromGoType#1 (*MapConverter).To#1 (*StructConverter).To#1 (*GoType).attrMap#1 newGoType#1 newGoType#2 newGoType#3
@@ -281,3 +300,40 @@ package object
 //@ props C10
 //@ requires c != nil
 //@ ensures[C10.iter.private] typeof(result) == *Chan && fresh(result) && result.(*Chan).value == c.value && result.(*Chan).lastReceived == nil && result.(*Chan).rxCount == 0
+
+// ---- C05: sets enumerate in hash-key order ------------------------------------------------------------------------
+// HashKey() is a function of the object (assumed for every Hashable). SortedItems returns every element once,
+// sorted by (Type, IntValue, StrValue, FltValue) lexicographically - a total order on the keys of one set (keys of
+// a Go map are pairwise different; NaN float keys are outside this argument).
+//@ func (Hashable).HashKey
+//@ trusted
+//@ modifies nothing
+//@ ensures same(result, uf("HASHKEY", HashKey, self))
+
+//@ spec hk(x) = uf("HASHKEY", HashKey, x)
+//@ spec hkless(a, b) = ite(hk(a).Type != hk(b).Type, hk(a).Type < hk(b).Type, ite(hk(a).IntValue != hk(b).IntValue, hk(a).IntValue < hk(b).IntValue, ite(hk(a).StrValue != hk(b).StrValue, hk(a).StrValue < hk(b).StrValue, ite(hk(a).FltValue != hk(b).FltValue, hk(a).FltValue < hk(b).FltValue, false))))
+
+//@ func (*Set).SortedItems
+//@ props C05
+//@ requires s != nil
+//@ assume[set.items.hashable] forallT(k, HashKey, haskey(s.items, k) ==> s.items[k] != nil && implements(s.items[k], Hashable))
+//@ modifies nothing
+//@ invariant 1: len(items) == iter && fresh(items) && forall(j, 0, len(items), items[j] != nil && implements(items[j], Hashable))
+//@ sortby[C05.setitems.less] 1: hkless(items[i], items[j])
+//@ ensures[C05.setitems.sorted] forall(a, 0, len(result), forall(b, a + 1, len(result), !hkless(result[b], result[a])))
+//@ ensures[C05.setitems.all] len(result) == len(s.items) && fresh(result)
+
+// Membership and element removal against the map model (C16): keyed by the element's hash key.
+//@ func (*Set).Contains
+//@ props C16
+//@ requires s != nil && key != nil && ref(key) != nil
+//@ modifies nothing
+//@ ensures[C16.set.contains] implements(key, Hashable) ==> result == ite(haskey(s.items, hk(key)), True, False)
+//@ ensures[C16.set.contains.unhashable] !implements(key, Hashable) ==> result == False
+
+//@ func (*Set).DelItem
+//@ props C16
+//@ requires s != nil && key != nil && ref(key) != nil && s.items != nil
+//@ modifies mapof(s.items)
+//@ ensures[C16.set.delitem] implements(key, Hashable) ==> result == nil && forallA(k, HashKey, haskey(s.items, k) == (old(haskey(s.items, k)) && !same(k, hk(key))) && (haskey(s.items, k) ==> s.items[k] == old(s.items[k])))
+//@ ensures[C16.set.delitem.unhashable] !implements(key, Hashable) ==> result != nil && forallA(k, HashKey, haskey(s.items, k) == old(haskey(s.items, k)))
